@@ -23,14 +23,15 @@ import (
 var c15Ops = []string{"AB1", "AB5000", "BA1", "BA5000", "A-psend-begin", "A-psend-finish", "A-precv-begin", "A-precv-finish", "handoff-A", "handoff-B"}
 
 type c15End struct {
-	s        *stream.Stream
-	conn     *netsim.Buf
-	dir      *refcodec.Dir // reference view of what this end sends
-	sentProt int
-	recvProt int
-	pSend    bool
-	pRecv    bool
-	handoffs int
+	s         *stream.Stream
+	conn      *netsim.Buf
+	dir       *refcodec.Dir // reference view of what this end sends
+	sentProt  int
+	recvProt  int
+	pSend     bool
+	pRecv     bool
+	pRecvHalf bool // the partially consumed message is one whose second frame has not arrived yet
+	handoffs  int
 }
 
 func (e *c15End) modelClean() bool {
@@ -42,6 +43,7 @@ type c15World struct {
 	res  *vlib.Result
 	id   string
 	step int
+	held []byte // second frame of a message whose first frame A already consumed
 }
 
 func (w *c15World) fail(key, f string, a ...any) bool {
@@ -224,6 +226,25 @@ func (w *c15World) apply(op string) (bool, bool) {
 		if err := B.s.SendMessage(ctx, []byte("efghij")); err != nil {
 			return true, w.fail("send-error", "%v", err)
 		}
+		if w.step%2 == 1 {
+			// variant: only the FIRST frame of the two-frame message has arrived when A reads;
+			// the read fails between the frames (nothing more on the connection yet), and the
+			// stream now holds a partially consumed message
+			if !w.xfer(B, A) {
+				return true, false
+			}
+			fr, _ := refcodec.ParseFrames(A.conn.R)
+			if len(fr) != 2 {
+				return true, w.fail("harness", "expected a two-frame message, got %d frames", len(fr))
+			}
+			w.held = append([]byte(nil), A.conn.R[fr[1].Off:]...)
+			A.conn.R = A.conn.R[:fr[1].Off]
+			if err := A.s.StartMessageRead(ctx); err == nil {
+				return true, w.fail("data-mismatch", "StartMessageRead succeeded although only the first frame of the message had arrived")
+			}
+			A.pRecv, A.pRecvHalf = true, true
+			return true, true
+		}
 		if !w.xfer(B, A) {
 			return true, false
 		}
@@ -239,6 +260,24 @@ func (w *c15World) apply(op string) (bool, bool) {
 	case "A-precv-finish":
 		if !A.pRecv {
 			return false, true
+		}
+		if A.pRecvHalf {
+			// the second frame arrives; the interrupted read is taken up again
+			A.conn.R = append(A.conn.R, w.held...)
+			w.held, A.pRecvHalf = nil, false
+			if err := A.s.StartMessageRead(ctx); err != nil {
+				return true, w.fail("auth-failure/partial-recv", "StartMessageRead after the rest of the message arrived: %v", err)
+			}
+			buf := make([]byte, 16)
+			n, err := A.s.ReadMessageBytes(ctx, buf)
+			if err != nil || string(buf[:n]) != "abcdefghij" {
+				return true, w.fail("data-mismatch", "message interrupted between its frames arrived as %q (%v)", buf[:n], err)
+			}
+			if err := A.s.EndMessageRead(); err != nil {
+				return true, w.fail("data-mismatch", "EndMessageRead: %v", err)
+			}
+			A.pRecv = false
+			return true, true
 		}
 		buf := make([]byte, 7)
 		n, err := A.s.ReadMessageBytes(ctx, buf)
